@@ -1,4 +1,5 @@
 import SafeNet.Proofs.Fetcher
+import SafeNet.Proofs.FullGlue
 /-!
 # C08 — replication fetching is bounded, duplicate-free, in-range and makes progress
 
@@ -893,6 +894,191 @@ theorem weak_fairness_starves :
     ((run d State.init (w1 ++ w2)).ogf.all fun o =>
       !hasKT (run d State.init (w1 ++ w2 ++ w3)).ogf o.key o.ty) = true := by decide
 end Example
+/-! ## the node-full glue: store and fetcher inside `SwarmDriver::handle_local_cmd` (cmd.rs)
+
+`full_respected` above is the fetcher's half of "once the node is full nothing farther than its farthest held record is
+fetched": nothing beyond what was passed to `set_farthest_on_full`. The other half is the handler of
+`LocalSwarmCmd::PutLocalRecord`, which tells the fetcher that the node is full. The theorems below are about the
+composed machine `SafeNet.FullGlue` (store model × fetcher model, both unchanged), whose handlers are the step lists
+regenerated from cmd.rs in source order (`SafeNet.Gen.FullGlue`): moving `set_farthest_on_full` behind
+`notify_about_new_put`, dropping it, or reading the farthest record before `put_verified` changes the term these
+theorems are about. -/
+section Glue
+open SafeNet.FullGlue (maxHeld pending atCapacity NoLoss)
+
+variable (cfg : Store.Cfg)
+
+/-- states of the composed machine reachable from a freshly started node by any history of handler calls,
+advertisements, task completions and notifications (any witnesses) -/
+def GReachable (s : FullGlue.St) : Prop := ∃ ops : List FullGlue.Op, s = FullGlue.run cfg dist ops
+
+theorem greachable_good {s : FullGlue.St} (h : GReachable dist cfg s) : FullGlue.Good dist s := by
+  obtain ⟨ops, rfl⟩ := h
+  exact FullGlue.run_good cfg dist ops
+
+/-- **A full node fetches nothing farther.** In every reachable state, when `put_verified` refuses the record of a
+`PutLocalRecord` with `MaxRecords` (which it does only at capacity, and leaves the held set as it was): every pair
+the handler sends up in `KeysToFetchForReplication`, and every fetch queued or in flight when the handler returns,
+is no farther from the node than the farthest record it holds at that moment. -/
+theorem full_node_fetches_nothing_farther (s : FullGlue.St) (hs : GReachable dist cfg s) (k v : Nat)
+    (c : List Entry) (hm : (FullGlue.step cfg dist s (.put k v c)).2.res = .maxRecords) :
+    atCapacity cfg s.store = true ∧
+    (FullGlue.step cfg dist s (.put k v c)).1.store.index = s.store.index ∧
+    (∀ e ∈ (FullGlue.step cfg dist s (.put k v c)).2.emitted,
+      dist e.key ≤ maxHeld dist (FullGlue.step cfg dist s (.put k v c)).1.store.index) ∧
+    (∀ e ∈ pending (FullGlue.step cfg dist s (.put k v c)).1.fetcher,
+      dist e.key ≤ maxHeld dist (FullGlue.step cfg dist s (.put k v c)).1.store.index) := by
+  have hg := greachable_good dist cfg hs
+  obtain ⟨hidx, hcap, f, fd, b, _, _, hheld, _, hb, hle⟩ := FullGlue.refusal_sets_bound cfg dist hg k v c hm
+  have hg' := FullGlue.step_good cfg dist hg (.put k v c)
+  have hpend : ∀ e ∈ pending (FullGlue.step cfg dist s (.put k v c)).1.fetcher,
+      dist e.key ≤ maxHeld dist (FullGlue.step cfg dist s (.put k v c)).1.store.index := by
+    intro e he
+    rw [hidx]
+    exact Nat.le_trans (hg'.inv.full b hb e (FullGlue.mem_pending.1 he))
+      (Nat.le_trans hle (FullGlue.le_maxHeld dist hheld))
+  refine ⟨by simpa [atCapacity] using hcap, hidx, ?_, hpend⟩
+  intro e he
+  exact hpend e (FullGlue.mem_pending.2 (Or.inr (FullGlue.emitted_inflight cfg dist s _ e he)))
+
+/-- the same one level down: the refusal leaves the fetcher with a bound that is at most the distance of the store's
+`farthest_record`, which is a held key and closer than the refused record -/
+theorem refusal_bounds_fetcher (s : FullGlue.St) (hs : GReachable dist cfg s) (k v : Nat) (c : List Entry)
+    (hm : (FullGlue.step cfg dist s (.put k v c)).2.res = .maxRecords) :
+    ∃ f fd b, (FullGlue.step cfg dist s (.put k v c)).1.store.farthest = some (f, fd) ∧
+      f ∈ Store.keys (FullGlue.step cfg dist s (.put k v c)).1.store.index ∧ fd < dist k ∧
+      (FullGlue.step cfg dist s (.put k v c)).1.fetcher.farthest = some b ∧ b ≤ dist f := by
+  obtain ⟨hidx, _, f, fd, b, _, hf, hheld, hlt, hb, hle⟩ :=
+    FullGlue.refusal_sets_bound cfg dist (greachable_good dist cfg hs) k v c hm
+  exact ⟨f, fd, b, hf, by rw [hidx]; exact hheld, hlt, hb, hle⟩
+
+/-- every pair sent up in `KeysToFetchForReplication` by any handler is in flight when the handler returns -/
+theorem emitted_is_inflight (s : FullGlue.St) (op : FullGlue.Op) :
+    ∀ e ∈ (FullGlue.step cfg dist s op).2.emitted, e ∈ (FullGlue.step cfg dist s op).1.fetcher.ogf :=
+  FullGlue.emitted_inflight cfg dist s op
+
+/-- **The bound is only ever set by a refusal**: an operation after which the fetcher's farthest acceptable distance
+differs is a `PutLocalRecord` refused with `MaxRecords` — no other handler, no advertisement, no removal, no clean-up
+sets, moves or clears it. -/
+theorem bound_set_only_by_refusal (s : FullGlue.St) (op : FullGlue.Op)
+    (hne : (FullGlue.step cfg dist s op).1.fetcher.farthest ≠ s.fetcher.farthest) :
+    ∃ k v c, op = .put k v c ∧ (FullGlue.step cfg dist s op).2.res = .maxRecords :=
+  FullGlue.step_farthest_changes cfg dist s op hne
+
+/-- **… and only ever tightened**: once set, it is never cleared and never grows, whatever happens to the store. -/
+theorem bound_never_widens (s : FullGlue.St) (op : FullGlue.Op) (b : Nat) (hb : s.fetcher.farthest = some b) :
+    ∃ b', (FullGlue.step cfg dist s op).1.fetcher.farthest = some b' ∧ b' ≤ b :=
+  FullGlue.step_farthest_mono cfg dist s op b hb
+
+/-- The full history-level reading of the clause: **at every moment at which the store is at capacity, nothing farther
+than the farthest record held at that moment is queued or in flight.** False of the code (witnesses below): the fetcher
+learns that the node is full only from a refusal, and its bound is not tightened when an accepted record evicts the
+farthest one. -/
+def FullNodeNeverFetchesFarther : Prop :=
+  ∀ (cfg : Store.Cfg) (dist : Nat → Nat) (ops : List FullGlue.Op),
+    atCapacity cfg (FullGlue.run cfg dist ops).store = true →
+    ∀ e ∈ pending (FullGlue.run cfg dist ops).fetcher,
+      dist e.key ≤ maxHeld dist (FullGlue.run cfg dist ops).store.index
+
+/-- **What does hold along a history** (`FullNodeNeverFetchesFarther` under the hypothesis it lacks): from a refusal
+on, for as long as no operation takes a record out of the held set (`NoLoss`: no accepted put that evicts, no
+`RemoveFailedLocalRecord`, no clean-up that removes something — further refusals, advertisements, completions,
+notifications and range updates are all allowed), at every moment nothing queued or in flight is farther than the
+farthest record held at that moment. -/
+theorem full_history_partial (s : FullGlue.St) (hs : GReachable dist cfg s) (k v : Nat) (c : List Entry)
+    (hm : (FullGlue.step cfg dist s (.put k v c)).2.res = .maxRecords) (post : List FullGlue.Op)
+    (hn : NoLoss cfg dist (FullGlue.step cfg dist s (.put k v c)).1 post) (n : Nat) :
+    ∀ e ∈ pending (FullGlue.runFrom cfg dist (FullGlue.step cfg dist s (.put k v c)).1 (post.take n)).fetcher,
+      dist e.key ≤
+        maxHeld dist (FullGlue.runFrom cfg dist (FullGlue.step cfg dist s (.put k v c)).1 (post.take n)).store.index := by
+  have hg := greachable_good dist cfg hs
+  obtain ⟨hidx, _, f, fd, b, _, _, hheld, _, hb, hle⟩ := FullGlue.refusal_sets_bound cfg dist hg k v c hm
+  have hg' := FullGlue.step_good cfg dist hg (.put k v c)
+  have hb0 : FullGlue.Bounded dist (FullGlue.step cfg dist s (.put k v c)).1 :=
+    ⟨b, hb, Nat.le_trans hle (by rw [hidx]; exact FullGlue.le_maxHeld dist hheld)⟩
+  exact FullGlue.bounded_pending dist (FullGlue.runFrom_good cfg dist hg' _)
+    (FullGlue.bounded_runFrom cfg dist hb0 _ (FullGlue.noLoss_take cfg dist hn n))
+
+namespace GlueExample
+/-- distance = key id -/
+def d : Nat → Nat := fun k => k
+def cfg1 : Store.Cfg := Store.Cfg.shipped 1 2
+def cfg2 : Store.Cfg := Store.Cfg.shipped 2 2
+
+/-- capacity 1, record 1 held (the node is full but has refused nothing yet); a neighbour advertises key 5 -/
+def beforeRefusal : List FullGlue.Op :=
+  [.put 1 0 [], .run 1, .deliver 1, .advert 0 [(5, 0)] [⟨5, 0, 0, 0⟩]]
+
+/-- **witness 1**: a full node that has not refused anything yet fetches a farther record -/
+theorem full_node_fetches_farther_before_first_refusal_witness :
+    atCapacity cfg1 (FullGlue.run cfg1 d beforeRefusal).store = true ∧
+    (FullGlue.run cfg1 d beforeRefusal).store.index.map (·.1) = [1] ∧
+    (FullGlue.run cfg1 d beforeRefusal).fetcher.ogf.map (·.key) = [5] ∧
+    (FullGlue.run cfg1 d beforeRefusal).fetcher.farthest = none := by decide
+
+/-- capacity 2, records 10 and 20 held; record 40 is refused (bound 20); key 15 is advertised and fetched; record 5 is
+accepted and evicts record 20: the farthest held record is now 10, the bound is still 20 and key 15 still in flight -/
+def afterEviction : List FullGlue.Op :=
+  [.put 10 0 [], .run 1, .deliver 1, .put 20 3 [], .run 2, .deliver 2,
+   .put 40 6 [], .advert 0 [(15, 0)] [⟨15, 0, 0, 0⟩],
+   .put 5 9 [], .run 3, .run 4, .deliver 4]
+
+/-- **witness 2**: the bound is tightened only by refusals — after an eviction a full node has a farther fetch in flight -/
+theorem full_node_fetches_farther_after_eviction_witness :
+    ((FullGlue.outs cfg2 d (FullGlue.init cfg2 d) afterEviction).map (·.res)) =
+      [.ok, .ok, .ok, .ok, .ok, .ok, .maxRecords, .ok, .ok, .ok, .ok, .ok] ∧
+    atCapacity cfg2 (FullGlue.run cfg2 d afterEviction).store = true ∧
+    maxHeld d (FullGlue.run cfg2 d afterEviction).store.index = 10 ∧
+    (FullGlue.run cfg2 d afterEviction).fetcher.ogf.map (·.key) = [15] ∧
+    (FullGlue.run cfg2 d afterEviction).fetcher.farthest = some 20 := by decide
+
+theorem fullNodeNeverFetchesFarther_false : ¬ FullNodeNeverFetchesFarther := by
+  intro h
+  have h1 := h cfg1 d beforeRefusal (by decide) ⟨5, 0, 0, 20⟩ (by decide)
+  exact absurd h1 (by decide)
+
+/-- the bound outlives the fullness: record 40 refused (bound 20), then record 20 is removed after a failed write; the
+node has room again, no range is set, and the advertised key 30 is neither fetched nor queued -/
+def afterRemoval : List FullGlue.Op :=
+  [.put 10 0 [], .run 1, .deliver 1, .put 20 3 [], .run 2, .deliver 2,
+   .put 40 6 [], .removeFailed 20, .advert 0 [(30, 0)] []]
+
+theorem bound_outlives_fullness_witness :
+    atCapacity cfg2 (FullGlue.run cfg2 d afterRemoval).store = false ∧
+    (FullGlue.run cfg2 d afterRemoval).fetcher.farthest = some 20 ∧
+    ((FullGlue.outs cfg2 d (FullGlue.init cfg2 d) afterRemoval).map (·.illegal)).all (! ·) = true ∧
+    pending (FullGlue.run cfg2 d afterRemoval).fetcher = [] := by decide
+
+/-- non-vacuity of `full_node_fetches_nothing_farther`: records 10 and 20 held at capacity 2, keys 15, 30 and 35 are
+being fetched; the arrival of record 30 is refused — 30 and 35 leave the fetcher, 15 stays, nothing is emitted -/
+example :
+    let pre : List FullGlue.Op :=
+      [.put 10 0 [], .run 1, .deliver 1, .put 20 3 [], .run 2, .deliver 2,
+       .advert 0 [(15, 0), (30, 0), (35, 0)] [⟨15, 0, 0, 0⟩, ⟨30, 0, 0, 0⟩, ⟨35, 0, 0, 0⟩]]
+    let r := FullGlue.step cfg2 d (FullGlue.run cfg2 d pre) (.put 30 6 [])
+    (FullGlue.run cfg2 d pre).fetcher.ogf.map (·.key) = [15, 30, 35] ∧
+    r.2.res = .maxRecords ∧ r.2.illegal = false ∧ r.2.emitted = [] ∧
+    (pending r.1.fetcher).map (·.key) = [15] ∧ r.1.fetcher.farthest = some 20 := by decide
+
+/-- The order of the calls is what the theorem rests on. Records 10 and 20 held at capacity 2; key 30 is in flight from
+holder 1 and queued for holder 2; record 30 arrives as another version (scratchpad) and is refused. With the handler's
+steps as generated, nothing is emitted; with `set_farthest_on_full` moved behind `notify_about_new_put` (steps
+`[0, 1, 3, 4, 2, 5, 6]`) the queued entry is scheduled and `(2, 30)` is sent up — farther than record 20 — before the
+bound removes it from the in-flight set again. -/
+example :
+    let pre : List FullGlue.Op :=
+      [.put 10 0 [], .run 1, .deliver 1, .put 20 3 [], .run 2, .deliver 2,
+       .advert 1 [(30, 0)] [⟨30, 0, 1, 0⟩], .advert 2 [(30, 0), (31, 0)] [⟨31, 0, 2, 0⟩]]
+    let s := FullGlue.run cfg2 d pre
+    let good := FullGlue.runHandler cfg2 d Gen.FullGlue.putLocalSteps { k := 30, v := 7, choice := [] } s
+    let bad := FullGlue.runHandler cfg2 d [0, 1, 3, 4, 2, 5, 6] { k := 30, v := 7, choice := [⟨30, 0, 2, 0⟩] } s
+    s.fetcher.tbf.map (·.key) = [30] ∧
+    good.2.res = .maxRecords ∧ good.2.illegal = false ∧ good.2.emitted = [] ∧ pending good.1.fetcher = [] ∧
+    bad.2.res = .maxRecords ∧ bad.2.illegal = false ∧ bad.2.emitted.map (fun e => (e.holder, e.key)) = [(2, 30)] ∧
+    pending bad.1.fetcher = [] := by decide
+end GlueExample
+end Glue
+
 /-! ## non-vacuity: the hypotheses are satisfiable and the operations do schedule -/
 
 /-- two holders, a multi-key list, a legal batch in distance order, then the same version from another holder is
@@ -946,5 +1132,15 @@ example : Reachable (fun k => k) (run (fun k => k) State.init [.age 3]) := ⟨[.
 #print axioms SafeNet.Props.C08.Example.weak_fair_trace
 #print axioms SafeNet.Props.C08.Example.weak_never_scheduled
 #print axioms SafeNet.Props.C08.Example.weak_fairness_starves
+#print axioms SafeNet.Props.C08.full_node_fetches_nothing_farther
+#print axioms SafeNet.Props.C08.refusal_bounds_fetcher
+#print axioms SafeNet.Props.C08.emitted_is_inflight
+#print axioms SafeNet.Props.C08.bound_set_only_by_refusal
+#print axioms SafeNet.Props.C08.bound_never_widens
+#print axioms SafeNet.Props.C08.full_history_partial
+#print axioms SafeNet.Props.C08.GlueExample.full_node_fetches_farther_before_first_refusal_witness
+#print axioms SafeNet.Props.C08.GlueExample.full_node_fetches_farther_after_eviction_witness
+#print axioms SafeNet.Props.C08.GlueExample.fullNodeNeverFetchesFarther_false
+#print axioms SafeNet.Props.C08.GlueExample.bound_outlives_fullness_witness
 
 end SafeNet.Props.C08
